@@ -1130,7 +1130,7 @@ func getProcessExpressionTokens(tokens []*Token, index int) ([]*Token, int) {
 	for token_index < len(tokens) {
 		if isProcessExprEnd(tokens[token_index].TokenType) {
 			break
-		} else if tokens[token_index].TokenType == WS {
+		} else if tokens[token_index].TokenType == WS || tokens[token_index].TokenType == COMMENT {
 			token_index += 1
 		} else {
 			exprTokens = append(exprTokens, tokens[token_index])
